@@ -14,7 +14,7 @@ typedef struct QXmppIncomingClient QXmppIncomingClient;
 typedef struct QTimer { int interval; bool active; } QTimer;
 static inline int QTimer_interval(const QTimer *t) { return t->interval; }
 static inline void QTimer_start(QTimer *t) { t->active = true; }
-typedef struct QSslSocket { bool server_encryption_started; bool flushed; } QSslSocket;
+typedef struct QSslSocket { bool server_encryption_started; bool flushed; int state; /* QAbstractSocket::SocketState */ } QSslSocket;
 static inline bool QSslSocket_flush(QSslSocket *s) { s->flushed = true; return nondet_bool(); }
 static inline void QSslSocket_startServerEncryption(QSslSocket *s) { s->server_encryption_started = true; }
 
